@@ -169,6 +169,19 @@ pub fn targeted(rng: &mut Rng) -> (&'static str, Program, &'static str) {
             );
             ("fired2", func(&[("n", &["int"])], vec![sw, log(vec![Expr::Str("after".into())])]), "switch-in-handler")
         }
+        7 if rng.chance(1, 2) => {
+            // qsTr in a handler: the translation context is the document's type name, as in bindings (the runtime mock's
+            // translate() returns `<context>source`, so property writes, method arguments and log arguments carry it)
+            let greet = call(mem(call(id("qsTr"), vec![Expr::Str("Hello, %1!".into())]), "arg"), vec![id("n")]);
+            (
+                "fired2",
+                func(
+                    &[("n", &["int"]), ("s", &["QString"])],
+                    vec![assign(mem(id("a"), "s"), greet), log(vec![call(id("qsTr"), vec![Expr::Str("greeted".into())]), id("s")]), Stmt::Expr(call(mem(id("b"), "setBoth"), vec![id("n"), call(id("qsTr"), vec![Expr::Str("both".into())])]))],
+                ),
+                "tr-context",
+            )
+        }
         7 => {
             // expression handler (no block): one effect
             ("fired", Program::Stmt(Stmt::Expr(call(mem(id("a"), "bump"), vec![mem(id("b"), "i")]))), "expression-handler")
